@@ -164,6 +164,24 @@ def clone_variants(model):
         view = ir.GraphView(model.graph.inputs, model.graph.outputs, nodes=nodes, initializers=tuple(model.graph.initializers.values()),
                             name=model.graph.name, opset_imports=model.graph.opset_imports, doc_string=model.graph.doc_string, metadata_props=dict(model.graph.metadata_props))
         yield "GraphView.clone", view, lambda: view.clone()
+    # views over a suffix of the node list: what the dropped prefix produces is an outer-scope value of the view;
+    # undeclared it must be refused, listed among the view's inputs it is a proper boundary
+    for k in range(1, len(nodes)):
+        part = nodes[k:]
+        inside = {id(o) for n in part for o in n.outputs} | {id(v) for v in model.graph.inputs} | {id(v) for v in model.graph.initializers.values()}
+        needed = []
+        for n in part:
+            for v in n.inputs:
+                if v is not None and id(v) not in inside and not any(v is x for x in needed):
+                    needed.append(v)
+        outs = [v for v in model.graph.outputs if id(v) in inside]
+        pv = ir.GraphView(model.graph.inputs, outs, nodes=part, initializers=tuple(model.graph.initializers.values()), name=model.graph.name, opset_imports=model.graph.opset_imports)
+        yield f"GraphView.clone(strict)[suffix {k}]", pv, lambda pv=pv: pv.clone()
+        needed = _outer_values(pv)  # also what nested bodies of the kept nodes capture
+        outs = [v for v in outs if not any(v is x for x in needed)] + [v for v in needed if v.is_graph_output() and False]
+        if needed:
+            dv = ir.GraphView(list(model.graph.inputs) + needed, outs, nodes=part, initializers=tuple(model.graph.initializers.values()), name=model.graph.name, opset_imports=model.graph.opset_imports)
+            yield f"GraphView.clone(declared)[suffix {k}]", dv, lambda dv=dv: dv.clone()
     for n in model.graph.all_nodes():
         for a in n.attributes.values():
             if isinstance(a, ir.Attr) and not a.is_ref() and a.type == ir.AttributeType.GRAPH:
@@ -463,7 +481,7 @@ def check_variant(label, vlabel, deep):
         raise KeyError(vlabel)
 
     model, orig, mk = fresh()
-    outer = _outer_values(orig) if "Graph.clone(" in vlabel and "[" in vlabel else []
+    outer = _outer_values(orig) if ("Graph.clone(" in vlabel or "GraphView.clone(" in vlabel) and "[" in vlabel else []
     strict = "strict" in vlabel
     try:
         cl = mk()
